@@ -262,10 +262,10 @@ func mutateNat(r *tr.Rand, s string) string {
 }
 
 func main() {
-	tr.Main("C20. mbits: every zero/non-zero pattern of every length 0..L (L=10 quick, 16 thorough) plus, for lengths up to 40, all-zero, one and two non-zero bytes at every position; each at all 8 alignments inside a buffer with >= 8 guard bytes on both sides, guards 0xa5 and 0x00 (the whole buffer is compared after Zero). Trunc: every cut point n in -1..len+1 of every string of up to 3 (4) runes over an 11-rune alphabet of 1-4-byte encodings at the encoding-length boundaries, of every string of up to 4 (5) bytes over 8 valid/invalid byte classes, and of random mixed strings. CompareNatural: all ordered pairs of strings of length <= 3 (4) over {0 1 9 / : a}, all triples of strings of length <= 2 and random triples of length <= 4 (order laws), random longer strings with leading zeros and digit runs up to 25 digits, paired with mutations of themselves. A case is non-trivial when the slice has a word loop or a non-zero byte / the cut is inside the string / a digit occurs.",
+	tr.Main("C20. mbits: every zero/non-zero pattern of every length 0..L (L=10 quick, 15 thorough) plus, for lengths up to 40, all-zero, one and two non-zero bytes at every position; each at all 8 alignments inside a buffer with >= 8 guard bytes on both sides, guards 0xa5 and 0x00 (the whole buffer is compared after Zero). Trunc: every cut point n in -1..len+1 of every string of up to 3 (4) runes over an 11-rune alphabet of 1-4-byte encodings at the encoding-length boundaries, of every string of up to 4 (5) bytes over 8 valid/invalid byte classes, and of random mixed strings. CompareNatural: all ordered pairs of strings of length <= 3 (4) over {0 1 9 / : a}, all triples of strings of length <= 2 and random triples of length <= 4 (order laws), random longer strings with leading zeros and digit runs up to 25 digits, paired with mutations of themselves. A case is non-trivial when the slice has a word loop or a non-zero byte / the cut is inside the string / a digit occurs.",
 		exec, func(g *tr.G) {
 			// ---- mbits
-			L := g.Scale(10, 16)
+			L := g.Scale(10, 15)
 			for n := 0; n <= L; n++ {
 				allPatterns(n, func(p []bool) { emitMbits(g, p, "exhaustive-pattern") })
 			}
